@@ -30,7 +30,7 @@ import (
 //	                                        Draw into Window().New(col,row,ww,wh) of a cleared 16x8 screen
 //	                                        => "cw ch;x,y:glyph:fg:bg;..." (cells differing from the cleared cell)
 //	knew W H XPIX YPIX                      new Vaxis on a fake console reporting that size (in-band resize)
-//	kimg N wPix hPix                        vx.NewKittyGraphic of an NRGBA image         => image id   (kimgs: of a crop of a larger image)
+//	kimg N wPix hPix                        vx.NewKittyGraphic of an NRGBA image         => image id   (kimgs: of a crop of a larger image; kimgo: opaque — the transmitted PNG's pixels are compared with the model's)
 //	kresize N w h                           Resize + wait for the encoder               => "cw ch" | "cw ch noencode" | panic
 //	simg N wPix hPix / sresize N w h        the same for vx.NewSixel (ids are shared with kitty images)
 //	sdraw N col row ww wh                   sixel.Draw(Window().New(col,row,ww,wh)): not drawn if larger than the window
@@ -259,8 +259,8 @@ var reGfx = regexp.MustCompile(`\x1b\[(\d+);(\d+)H|\x1b_Ga=p,i=(\d+),p=(\d+),C=1
 // parseGfx extracts deletions, placements (with a check that the cursor was moved to the placement's cell first) and
 // image uploads from what vaxis wrote, and (round 4) `Q=`: ALL graphics commands in the order they were written —
 // `d<id>@<col>,<row>` (a=d of one placement), `p<id>@<col>,<row>` (a=p), `t<id>:<W>x<H>` (one complete transmission of
-// image data: the chunks up to m=0 joined, base64-decoded, and the pixel size of the PNG they hold; `?` when they do
-// not decode), `S@<col>,<row>` (sixel data at the cursor).  The driver runs an order-sensitive model of the terminal's
+// image data: the chunks up to m=0 joined, base64-decoded, and the pixel size of the PNG they hold — followed by
+// `#<digest>` of its pixels when the picture is opaque; `?` when they do not decode), `S@<col>,<row>` (sixel data at the cursor).  The driver runs an order-sensitive model of the terminal's
 // image and placement tables on it (a delete after the a=p of the same placement id removes the new placement).
 func parseGfx(b []byte) string {
 	var d, w, u, q []string
@@ -302,6 +302,26 @@ func parseGfx(b []byte) string {
 				if raw, err := base64.StdEncoding.DecodeString(payload.String()); err == nil {
 					if cfg, err := png.DecodeConfig(bytes.NewReader(raw)); err == nil {
 						dims = fmt.Sprintf("%dx%d", cfg.Width, cfg.Height)
+					}
+					// an opaque picture: FNV-1a over the 8-bit (R, G, B) of its pixels, row major (what the terminal shows)
+					if im, err := png.Decode(bytes.NewReader(raw)); err == nil {
+						h, opaque := uint32(2166136261), true
+						b := im.Bounds()
+						for y := b.Min.Y; y < b.Max.Y && opaque; y++ {
+							for x := b.Min.X; x < b.Max.X; x++ {
+								r, g, bl, al := im.At(x, y).RGBA()
+								if al != 0xffff {
+									opaque = false
+									break
+								}
+								for _, c := range []uint32{r >> 8, g >> 8, bl >> 8} {
+									h = (h ^ c) * 16777619
+								}
+							}
+						}
+						if opaque {
+							dims += fmt.Sprintf("#%08x", h)
+						}
 					}
 				}
 				q = append(q, fmt.Sprintf("t%d:%s", id, dims))
@@ -429,7 +449,7 @@ func (s *session) execOp(f []string) (string, bool) {
 		return "", false
 	}
 	switch f[0] {
-	case "kimg", "kimgs":
+	case "kimg", "kimgs", "kimgo":
 		a, ok := ints(f[1:])
 		if !ok || len(a) != 3 || a[1] < 1 || a[2] < 1 {
 			return "", false
@@ -442,6 +462,11 @@ func (s *session) execOp(f []string) (string, bool) {
 		big := image.NewNRGBA(image.Rect(0, 0, a[1]+mx, a[2]+my))
 		for i := range big.Pix {
 			big.Pix[i] = uint8(37*i + 11*a[0] + 200)
+			// kimgo (round 4): an opaque image — the PNG transmitted for it is compared pixel by pixel (as a digest) with
+			// the model's nearest-neighbour scaling
+			if f[0] == "kimgo" && i%4 == 3 {
+				big.Pix[i] = 255
+			}
 		}
 		var img image.Image = big
 		if f[0] == "kimgs" {
@@ -1057,7 +1082,11 @@ func genPlacements(r *hx.Run, rng *gen.Rng, do func(string) string) {
 			if sixel[i] {
 				do(fmt.Sprintf("simg %d %d %d", i, imgW[i], imgH[i]))
 			} else {
-				do(fmt.Sprintf("kimg %d %d %d", i, imgW[i], imgH[i]))
+				if rng.Bool() {
+					do(fmt.Sprintf("kimgo %d %d %d", i, imgW[i], imgH[i]))
+				} else {
+					do(fmt.Sprintf("kimg %d %d %d", i, imgW[i], imgH[i]))
+				}
 			}
 			resize(i)
 		}
@@ -1163,7 +1192,7 @@ func genPlacements(r *hx.Run, rng *gen.Rng, do func(string) string) {
 			do(fmt.Sprintf("kimgs 1 %d %d", rng.Range(30, 64), rng.Range(30, 64)))
 			r.Count("kitty-image-is-a-crop")
 		} else {
-			do(fmt.Sprintf("kimg 1 %d %d", rng.Range(30, 64), rng.Range(30, 64)))
+			do(fmt.Sprintf("kimgo 1 %d %d", rng.Range(30, 64), rng.Range(30, 64)))
 		}
 		do(fmt.Sprintf("kimg 2 %d %d", rng.Range(4, 20), rng.Range(4, 20)))
 		do(fmt.Sprintf("kresize 1 %d %d", rng.Range(2, 6), rng.Range(1, 3)))
